@@ -480,9 +480,32 @@ func runScript(sc Script, serial *sync.Mutex) []Ev {
 			}
 			r.log(Ev{Ev: "offer_start", Req: st.Req, N: st.Items, Items: tags})
 			if cfg.WFR || cfg.Queue == "none" || cfg.Block {
+				// the send must have taken effect (enqueued, refused or handed to the export function) before the script moves
+				// on -- in particular before a shutdown step: a send that only reaches the exporter after Shutdown was
+				// requested is outside every statement.  Observable without a hook: the call returned, the queue size gauge
+				// grew, or an export call started.
+				sz0 := gauge(tel, "otelcol_exporter_queue_size")
+				r.mu.Lock()
+				calls0 := r.calls
+				r.mu.Unlock()
+				returned := make(chan struct{})
 				sendWG.Add(1)
-				go func() { defer sendWG.Done(); do() }()
-				time.Sleep(time.Millisecond)
+				go func() { defer sendWG.Done(); defer close(returned); do() }()
+				deadline := time.Now().Add(2 * time.Second)
+			waitEffect:
+				for time.Now().Before(deadline) {
+					select {
+					case <-returned:
+						break waitEffect
+					case <-time.After(200 * time.Microsecond):
+					}
+					r.mu.Lock()
+					c := r.calls
+					r.mu.Unlock()
+					if c > calls0 || gauge(tel, "otelcol_exporter_queue_size") > sz0 {
+						break
+					}
+				}
 			} else {
 				do()
 			}
